@@ -126,7 +126,7 @@ let judge _name ins outs =
   let nontrivial = ref false in
 
   (* the per-stream oracle: [ops], [specs], [all_ev] are those of ONE stream *)
-  let oracle_stream (sid : int) (ops : op list) (specs : (dir * msg) list) (all_ev : string list) : (string * string) option =
+  let oracle_stream (sid : int) (ops : op list) (specs : (dir * msg) list) (all_ev : string list) (ngroups : int) : (string * string) option =
   (* ---------- the property oracle, per direction, on the real observation ---------- *)
   let headers_first =
     let rec go seen_data = function
@@ -230,6 +230,19 @@ let judge _name ins outs =
               else None
         end
       end in
+    (* Header failed with "unrecognized grpc-encoding": by theorem C11_encoding_error_iff_nonstandard
+       that is right exactly when the standard table rejects the announcement of that HEADERS
+       (the failing op is the last one this stream executed) *)
+    let enc_err =
+      if not header_error then None else
+      match List.nth_opt ops (ngroups - 1) with
+      | Some (OpHeader (d, hs, _)) when not (std_rejects hs) ->         (* extracted *)
+          let vals = List.filter_map (fun (n, v) -> if string_of_chars n = "grpc-encoding" then Some ("'" ^ string_of_chars v ^ "'") else None) hs in
+          Some ("encoding_selection",
+                Printf.sprintf "stream=%d dir=%c HEADERS announcing grpc-encoding %s (standard) was refused as unrecognized: the stream's messages reach neither processor nor destination"
+                  sid (char_of_dir d) (String.concat "," vals))
+      | _ -> None in
+    if enc_err <> None then enc_err else
     (match oracle_dir CtoS with
      | Some (c, dt) -> Some (c, Printf.sprintf "stream=%d %s" sid dt)
      | None -> (match oracle_dir StoC with Some (c, dt) -> Some (c, Printf.sprintf "stream=%d %s" sid dt) | None -> None)) in
@@ -241,7 +254,7 @@ let judge _name ins outs =
             let ops = List.filter_map (fun (k', o) -> if k' = k then Some o else None) sops in
             let specs = List.filter_map (fun (k', x) -> if k' = k then Some x else None) sspecs in
             let evs = List.concat (List.filter_map (fun (k', g) -> if k' = k then Some g else None) groups) in
-            oracle_stream k ops specs evs) None stream_ids in
+            oracle_stream k ops specs evs (List.length (List.filter (fun (k', _) -> k' = k) groups))) None stream_ids in
   match first_fail with
   | Some (clause, detail) -> VPropfail (clause, detail)
   | None ->
